@@ -21,8 +21,15 @@ const gwGroup = "gateway.networking.k8s.io"
 func genC10(t *rapid.T) WorldCase {
 	g := newG(t, Profile{NS: []string{"a", "b"}, MaxReady: 2})
 	// namespaces with labels (for Selector)
-	g.add(&world.Obj{Kind: world.KNamespace, Name: "a", Labels: map[string]string{"env": g.pick("enva", []string{"prod", "dev"})}})
-	g.add(&world.Obj{Kind: world.KNamespace, Name: "b", Labels: map[string]string{"env": g.pick("envb", []string{"prod", "dev"})}})
+	nsLabels := func(name string) map[string]string {
+		l := map[string]string{"env": g.pick("env"+name, []string{"prod", "dev"})}
+		if g.chance("tier"+name, 50) {
+			l["tier"] = g.pick("tierv"+name, []string{"web", "db"})
+		}
+		return l
+	}
+	g.add(&world.Obj{Kind: world.KNamespace, Name: "a", Labels: nsLabels("a")})
+	g.add(&world.Obj{Kind: world.KNamespace, Name: "b", Labels: nsLabels("b")})
 	g.add(&world.Obj{Kind: world.KGatewayClass, Name: "ours", Controller: world.ControllerName})
 	if g.chance("foreignclass", 70) {
 		g.add(&world.Obj{Kind: world.KGatewayClass, Name: "foreign", Controller: "example.com/gw"})
@@ -59,7 +66,20 @@ func genC10(t *rapid.T) WorldCase {
 			}
 			l.From = g.pick("from", []string{"Same", "Same", "All", "Selector"})
 			if l.From == "Selector" {
-				l.Selector = map[string]string{"env": g.pick("selenv", []string{"prod", "dev"})}
+				switch g.intn("selform", 0, 3) {
+				case 0, 1:
+					l.Selector = map[string]string{"env": g.pick("selenv", []string{"prod", "dev"})}
+				case 2: // expressions only
+					l.SelExprs = []world.SelExpr{{Key: "env", Op: g.pick("selop", []string{"In", "NotIn", "Exists", "DoesNotExist"}), Values: []string{g.pick("selval", []string{"prod", "dev"})}}}
+				default: // both
+					l.Selector = map[string]string{"env": g.pick("selenv", []string{"prod", "dev"})}
+					l.SelExprs = []world.SelExpr{{Key: "tier", Op: g.pick("selop", []string{"In", "NotIn", "Exists", "DoesNotExist"}), Values: []string{"web"}}}
+				}
+				for i := range l.SelExprs {
+					if l.SelExprs[i].Op == "Exists" || l.SelExprs[i].Op == "DoesNotExist" {
+						l.SelExprs[i].Values = nil
+					}
+				}
 			}
 			switch g.intn("kinds", 0, 6) {
 			case 0:
@@ -237,6 +257,11 @@ func gwAdmit(w *world.World, rt *world.Obj, kind string, reject func(string)) []
 				if match {
 					for k, v := range l.Selector {
 						if nsObj.Labels[k] != v {
+							match = false
+						}
+					}
+					for _, e := range l.SelExprs {
+						if !e.Matches(nsObj.Labels) {
 							match = false
 						}
 					}
